@@ -243,6 +243,15 @@ def effPlayers (a : Args) : List Int :=
 
 def suffix (p : Int) : String := if p == 0 then " (GAIA)" else s!" (p{p})"
 
+/-- one iteration of the loop for a player `p ≠ from_player`: `copy_trigger`, the name suffix, the two rewriting
+loops on the copy; returns the address of the copy -/
+def copyOne (a : Args) (src : Nat) (ac ae : List Nat) (p : Int) (s : State) : Except Err (State × Nat) :=
+  match copyTrigger s src with
+  | .error e => .error e
+  | .ok (s1, na) =>
+    let s2 := heapModify s1 na (fun t => { t with name := t.name ++ suffix p })
+    .ok (heapModify s2 na (rewriteTrig (rwCopy a.flags a.frm p) ac ae), na)
+
 /-- the `for player in create_copy_for_players` loop; `src` is the source object, `(ac, ae)` its alterable indices;
 the dict maps a player to the address of its copy -/
 def copyLoop (a : Args) (src : Nat) (ac ae : List Nat) :
@@ -251,12 +260,9 @@ def copyLoop (a : Args) (src : Nat) (ac ae : List Nat) :
   | p :: ps, s, d =>
     if p == a.frm then copyLoop a src ac ae ps s d
     else
-      match copyTrigger s src with
+      match copyOne a src ac ae p s with
       | .error e => .error e
-      | .ok (s1, na) =>
-        let s2 := heapModify s1 na (fun t => { t with name := t.name ++ suffix p })
-        let s3 := heapModify s2 na (rewriteTrig (rwCopy a.flags a.frm p) ac ae)
-        copyLoop a src ac ae ps s3 (dictSet d p na)
+      | .ok (s1, na) => copyLoop a src ac ae ps s1 (dictSet d p na)
 
 /-- does some copy evaluate `PlayerId(player)` with a value outside 0..8? -/
 def castFails (a : Args) (t : Trig) (ac ae : List Nat) : Bool :=
@@ -264,26 +270,33 @@ def castFails (a : Args) (t : Trig) (ac ae : List Nat) : Bool :=
     (anyAt (castsCopy a.flags a.frm) ac t.conds || anyAt (castsCopy a.flags a.frm) ae t.effs)
 
 /-- `copy_trigger_per_player`; the source object only gets its name suffix -/
-def copyPerPlayer (s : State) (a : Args) (sel : Sel) : Except Err (State × List (Int × Nat)) := do
-  let (_, _, src) ← resolve s sel
-  let t ← heapGet s.heap src
-  let (ac, ae) := alterOf a.lock t
-  if castFails a t ac ae then .error .value
-  else
-    let (s1, d) ← copyLoop a src ac ae (effPlayers a) s []
-    pure (heapModify s1 src (fun t => { t with name := t.name ++ s!" (p{a.frm})" }), d)
+def copyPerPlayer (s : State) (a : Args) (sel : Sel) : Except Err (State × List (Int × Nat)) :=
+  match resolve s sel with
+  | .error e => .error e
+  | .ok (_, _, src) =>
+    match heapGet s.heap src with
+    | .error e => .error e
+    | .ok t =>
+      if castFails a t (alterOf a.lock t).1 (alterOf a.lock t).2 then .error .value
+      else
+        match copyLoop a src (alterOf a.lock t).1 (alterOf a.lock t).2 (effPlayers a) s [] with
+        | .error e => .error e
+        | .ok (s1, d) => .ok (heapModify s1 src (fun t => { t with name := t.name ++ s!" (p{a.frm})" }), d)
 
 /-! ### `replace_player` -/
 
 /-- `replace_player`: rewrites the selected object in place and returns it (its address) -/
 def replacePlayer (s : State) (sel : Sel) (to : Int) (only : Option Int) (incSrc incTgt : Bool) (lk : Lock) :
-    Except Err (State × Nat) := do
-  let (_, _, a) ← resolve s sel
-  let t ← heapGet s.heap a
-  let (ac, ae) := alterOf lk t
-  if !validPid to && (anyAt (castsReplace incSrc incTgt only) ac t.conds ||
-      anyAt (castsReplace incSrc incTgt only) ae t.effs) then .error .value
-  else pure (heapModify s a (rewriteTrig (rwReplace incSrc incTgt to only) ac ae), a)
+    Except Err (State × Nat) :=
+  match resolve s sel with
+  | .error e => .error e
+  | .ok (_, _, a) =>
+    match heapGet s.heap a with
+    | .error e => .error e
+    | .ok t =>
+      if !validPid to && (anyAt (castsReplace incSrc incTgt only) (alterOf lk t).1 t.conds ||
+          anyAt (castsReplace incSrc incTgt only) (alterOf lk t).2 t.effs) then .error .value
+      else .ok (heapModify s a (rewriteTrig (rwReplace incSrc incTgt to only) (alterOf lk t).1 (alterOf lk t).2), a)
 
 /-! ### trigger trees -/
 
@@ -362,19 +375,57 @@ def swapGet (sw : List (Int × List (Int × Int))) (i p : Int) : Except Err Int 
   let d ← dictGet sw i
   dictGet d p
 
-/-- relink the activation effects of one object for `player` -/
-def relinkTrig (sw : List (Int × List (Int × Int))) (p : Int) (t : Trig) : Except Err Trig := do
-  let effs ← t.effs.mapM (fun e =>
-    if isAct e.kind then do
-      let v ← swapGet sw e.link p
-      pure { e with link := v }
-    else pure e)
-  pure { t with effs := effs }
+/-- relink the activation effects of one trigger for `player`:
+`effect.trigger_id = trigger_index_swap[effect.trigger_id][player]` -/
+def relinkEffs (sw : List (Int × List (Int × Int))) (p : Int) : List Comp → Except Err (List Comp)
+  | [] => .ok []
+  | e :: r =>
+    if isAct e.kind then
+      match swapGet sw e.link p with
+      | .error x => .error x
+      | .ok v =>
+        match relinkEffs sw p r with
+        | .error x => .error x
+        | .ok r' => .ok ({ e with link := v } :: r')
+    else
+      match relinkEffs sw p r with
+      | .error x => .error x
+      | .ok r' => .ok (e :: r')
 
-def relinkObj (sw : List (Int × List (Int × Int))) (p : Int) (h : List Trig) (a : Nat) : Except Err (List Trig) := do
-  let t ← heapGet h a
-  let t' ← relinkTrig sw p t
-  pure (h.set a t')
+def relinkObj (sw : List (Int × List (Int × Int))) (p : Int) (h : List Trig) (a : Nat) : Except Err (List Trig) :=
+  match heapGet h a with
+  | .error x => .error x
+  | .ok t =>
+    match relinkEffs sw p t.effs with
+    | .error x => .error x
+    | .ok effs => .ok (h.set a { t with effs := effs })
+
+/-- `for trigger in triggers: …` for one player -/
+def relinkList (sw : List (Int × List (Int × Int))) (p : Int) : List Nat → List Trig → Except Err (List Trig)
+  | [], h => .ok h
+  | x :: r, h =>
+    match relinkObj sw p h x with
+    | .error e => .error e
+    | .ok h' => relinkList sw p r h'
+
+/-- `for player, triggers in new_triggers.items(): …` -/
+def relinkAll (sw : List (Int × List (Int × Int))) : List (Int × List Nat) → List Trig → Except Err (List Trig)
+  | [], h => .ok h
+  | pl :: r, h =>
+    match relinkList sw pl.1 pl.2 h with
+    | .error e => .error e
+    | .ok h' => relinkAll sw r h'
+
+/-- `for player, trigger in triggers.items(): swap.setdefault(index, {})[player] = trigger.trigger_id;
+new_triggers.setdefault(player, []).append(trigger)` -/
+def pushCopies (heap : List Trig) (index : Int) :
+    List (Int × Nat) → List (Int × List Nat) → List (Int × List (Int × Int)) →
+      Except Err (List (Int × List Nat) × List (Int × List (Int × Int)))
+  | [], nt, sw => .ok (nt, sw)
+  | pa :: r, nt, sw =>
+    match heapGet heap pa.2 with
+    | .error e => .error e
+    | .ok t => pushCopies heap index r (dictPush nt pa.1 pa.2) (swapSet sw index pa.1 t.tid)
 
 /-- the per-node loop "Copy for all other players" -/
 def treeCopyLoop (a : Args) :
@@ -385,9 +436,7 @@ def treeCopyLoop (a : Args) :
     match copyPerPlayer s a (.index index) with
     | .error e => .error e
     | .ok (s1, d) =>
-      match d.foldlM (fun (acc : List (Int × List Nat) × List (Int × List (Int × Int))) (pa : Int × Nat) => do
-              let t ← heapGet s1.heap pa.2
-              pure (dictPush acc.1 pa.1 pa.2, swapSet acc.2 index pa.1 t.tid)) (nt, sw) with
+      match pushCopies s1.heap index d nt sw with
       | .error e => .error e
       | .ok (nt1, sw1) => treeCopyLoop a rest s1 nt1 sw1
 
@@ -420,27 +469,62 @@ def groupIds (g : GroupBy) (frm : Int) (known : List Int) (nt : List (Int × Lis
           let vs ← l.mapM tidOf
           pure (acc ++ vs)) []
 
+/-- "Set values for from_player": the swap entries of the source triggers -/
+def swapInit (s : State) (frm : Int) : List Int → List (Int × List (Int × Int)) → Except Err (List (Int × List (Int × Int)))
+  | [], sw => .ok sw
+  | i :: r, sw =>
+    match pyGet s.list i with
+    | .error e => .error e
+    | .ok x =>
+      match heapGet s.heap x with
+      | .error e => .error e
+      | .ok t => swapInit s frm r (swapSet sw i frm t.tid)
+
+/-- `[self.triggers[i] for i in known_node_indexes]` -/
+def nodeAddrs (s : State) : List Int → Except Err (List Nat)
+  | [] => .ok []
+  | i :: r =>
+    match pyGet s.list i with
+    | .error e => .error e
+    | .ok x =>
+      match nodeAddrs s r with
+      | .error e => .error e
+      | .ok xs => .ok (x :: xs)
+
+/-- the grouping step at the end of `copy_trigger_tree_per_player` -/
+def groupStep (g : GroupBy) (frm : Int) (known : List Int) (nt : List (Int × List Nat)) (di : Int) (s : State) :
+    Except Err State :=
+  match g with
+  | .none => .ok s
+  | g =>
+    match groupIds g frm known nt s.heap with
+    | .error e => .error e
+    | .ok ids => moveTriggers s ids di
+
 /-- `copy_trigger_tree_per_player`; returns the dict player → addresses (the source objects under `from_player`) -/
 def copyTreePerPlayer (fixed : Bool) (fuel : Nat) (s : State) (a : Args) (sel : Sel) (g : GroupBy) :
-    Except Err (State × List (Int × List Nat)) := do
-  let (ti, di, src) ← resolve s sel
-  let known ← dfs fixed s fuel src [ti]
-  -- "Set values for from_player"
-  let srcs ← known.mapM (fun i => pyGet s.list i)
-  let nt0 : List (Int × List Nat) := [(a.frm, srcs)]
-  let sw0 ← known.foldlM (fun sw i => do
-      let x ← pyGet s.list i
-      let t ← heapGet s.heap x
-      pure (swapSet sw i a.frm t.tid)) ([] : List (Int × List (Int × Int)))
-  let (s1, nt, sw) ← treeCopyLoop a known s nt0 sw0
-  -- "Set trigger_id's in activation effects to the new player copied trigger ID"
-  let heap2 ← nt.foldlM (fun h (pl : Int × List Nat) => pl.2.foldlM (fun h x => relinkObj sw pl.1 h x) h) s1.heap
-  let s2 : State := { s1 with heap := heap2 }
-  let ids ← groupIds g a.frm known nt s2.heap
-  match g with
-  | .none => pure (s2, nt)
-  | _ => do
-    let s3 ← moveTriggers s2 ids di
-    pure (s3, nt)
+    Except Err (State × List (Int × List Nat)) :=
+  match resolve s sel with
+  | .error e => .error e
+  | .ok (ti, di, src) =>
+    match dfs fixed s fuel src [ti] with
+    | .error e => .error e
+    | .ok known =>
+      match nodeAddrs s known with
+      | .error e => .error e
+      | .ok srcs =>
+        match swapInit s a.frm known [] with
+        | .error e => .error e
+        | .ok sw0 =>
+          match treeCopyLoop a known s [(a.frm, srcs)] sw0 with
+          | .error e => .error e
+          | .ok (s1, nt, sw) =>
+            -- "Set trigger_id's in activation effects to the new player copied trigger ID"
+            match relinkAll sw nt s1.heap with
+            | .error e => .error e
+            | .ok heap2 =>
+              match groupStep g a.frm known nt di { s1 with heap := heap2 } with
+              | .error e => .error e
+              | .ok s3 => .ok (s3, nt)
 
 end Aoe.PerPlayer
